@@ -95,3 +95,5 @@ package fs
 //@      dir.subPackages[len(dir.subPackages) - 1] == filepath.Dir(path)
 //@   ensures output_tree_skipped [C21]: !(isBuildFile(globber.buildFileNames, path) && filepath.Dir(path) != rootPath) && \
 //@      d.Name() == "plz-out" && rootPath == "." ==> result == filepath.SkipDir
+//@ assume func RecursiveLink
+//@   modifies nothing
